@@ -311,7 +311,7 @@ class ShiftCmp(Base):
 TBL = [3, 141, 59, 26]
 BTBL = [Bits8(0x11), Bits8(0xEE), Bits8(0x80), Bits8(0x7F)]
 KP = Pst(9, 6)
-STRUCT_BEHAVIORAL = ("StructBuild", "StructReg", "LhsFields", "FreeScalars", "ChildStructPorts", "FieldCmpExt", "IfcStructMsg")     # MemberConsts has struct CONSTANTS only: checked strictly     # designs whose blocks touch struct-typed signals / constants (signature class of the Yosys struct findings)
+STRUCT_BEHAVIORAL = ("StructBuild", "StructReg", "LhsFields", "FreeScalars", "ChildStructPorts", "FieldCmpExt", "IfcStructMsg", "SextArrayField")     # MemberConsts has struct CONSTANTS only: checked strictly     # designs whose blocks touch struct-typed signals / constants (signature class of the Yosys struct findings)
 K5 = 5
 KB = Bits8(0xC3)
 
@@ -1350,6 +1350,179 @@ class ShiftEdge(Base):
         s.w @= s.a - s.b
       else:
         s.w @= s.b - s.a
+
+
+mk_for_step(5, 0, -2); mk_for_step(6, 1, -4); mk_for_step(4, 0, -3)     # the last value minus the step would be negative
+
+
+def _chained_ref(st, a, b, sel, en, reset):
+  c = d = 0
+  if a & 1: c = 1
+  else: c = d = (a + 1) & M8
+  acc = 0
+  for k in range(2):
+    e = f = (b + k) & M8
+    acc = (acc + e + f) & M8
+  return None, {"o": (c + d) & M8, "p": acc}
+
+
+@design(_chained_ref)
+class ChainedAssign(Base):
+  """a chained assignment `c = d = e` as the ONLY statement of an else branch and of a loop body"""
+  def construct(s):
+    s.ports()
+    s.o = OutPort(Bits8)
+    s.p = OutPort(Bits8)
+
+    @update
+    def up_chain():
+      c = d = Bits8(0)
+      if s.a[0]:
+        c = Bits8(1)
+      else:
+        c = d = s.a + 1
+      s.o @= c + d
+      acc = Bits8(0)
+      for k in range(2):
+        e = f = s.b + k
+        acc = acc + e + f
+      s.p @= acc
+
+
+i = 2      # a module-level name that the blocks below shadow with their loop variable
+
+
+@design(lambda st, a, b, sel, en, reset: (None, {"o": a & 0x0F, "p": sum(((b >> k) & 1) << (3 - k) for k in range(4))}))
+class ShadowedLoopVar(Base):
+  """the loop variable has the name of a module-level variable"""
+  def construct(s):
+    s.ports()
+    s.o = OutPort(Bits8)
+    s.p = OutPort(Bits4)
+
+    @update
+    def up_slv():
+      s.o @= 0
+      for i in range(4):
+        s.o[i] @= s.a[i]
+      for i in range(4):
+        s.p[3 - i] @= s.b[i]
+
+
+@bitstruct
+class ArrSt:
+  x: Bits4
+  arr: [ Bits8 ] * 2
+
+
+def _sx(v, w, n):
+  return (v | (((1 << n) - 1) ^ ((1 << w) - 1))) & ((1 << n) - 1) if v >> (w - 1) else v
+
+
+@design(lambda st, a, b, sel, en, reset: (None, {"o": _sx(b, 8, 16) >> 8, "p": _sx(a, 8, 16) & 0xFF, "q": _sx(b if en else a, 8, 16) >> 8}))
+class SextArrayField(Base):
+  """sext of an element of a packed-array field of a struct (constant and signal index)"""
+  def construct(s):
+    s.ports()
+    s.o = OutPort(Bits8)
+    s.p = OutPort(Bits8)
+    s.q = OutPort(Bits8)
+    s.w = Wire(ArrSt)
+    s.t = Wire(Bits16)
+    s.u = Wire(Bits16)
+    s.v = Wire(Bits16)
+
+    @update
+    def up_saf1():
+      s.w.x @= 0
+      s.w.arr[0] @= s.a
+      s.w.arr[1] @= s.b
+
+    @update
+    def up_saf2():
+      s.t @= sext(s.w.arr[1], 16)
+      s.u @= sext(s.w.arr[0], 16)
+      s.v @= sext(s.w.arr[s.en], 16)
+      s.o @= s.t[8:16]
+      s.p @= s.u[0:8]
+      s.q @= s.v[8:16]
+
+
+@design(lambda st, a, b, sel, en, reset: (None, {"o": sum(((a >> k) & 1) << (3 - k) for k in range(4)) }))
+class PortNamedLikeLoopVar(Component):
+  """ports called i and o next to a loop variable called i"""
+  def construct(s):
+    s.a = InPort(Bits8)
+    s.b = InPort(Bits8)
+    s.sel = InPort(Bits2)
+    s.en = InPort(Bits1)
+    s.i = Wire(Bits4)
+    s.o = OutPort(Bits4)
+    s.i //= s.a[0:4]
+
+    @update
+    def up_pnl():
+      for i in range(4):
+        s.o[i] @= s.i[3 - i]
+
+
+class Buf8(Component):
+  def construct(s):
+    s.in_ = InPort(Bits8)
+    s.out = OutPort(Bits8)
+
+    @update
+    def up_buf8():
+      s.out @= s.in_ + 1
+
+
+@design(lambda st, a, b, sel, en, reset: (None, {"o": (a + 1) & M8}))
+class InstanceNamedBuf(Base):
+  """a sub-component instance whose name is a Verilog keyword"""
+  def construct(s):
+    s.ports()
+    s.o = OutPort(Bits8)
+    s.buf = Buf8()
+    s.buf.in_ //= s.a
+    s.o //= s.buf.out
+
+
+@design(lambda st, a, b, sel, en, reset: (None, {"o": (a + b) & M8}))
+class NewKeywordNames(Component):
+  """signals named with keywords that IEEE 1800-2009 / 2012 added"""
+  def construct(s):
+    s.a = InPort(Bits8)
+    s.b = InPort(Bits8)
+    s.sel = InPort(Bits2)
+    s.en = InPort(Bits1)
+    s.until = Wire(Bits8)
+    s.let = Wire(Bits8)
+    s.o = OutPort(Bits8)
+    s.until //= s.a
+    s.let //= s.b
+
+    @update
+    def up_nkn():
+      s.o @= s.until + s.let
+
+
+@design(lambda st, a, b, sel, en, reset: (None, {"o": _sx((a >> sel) & 3, 2, 8), "p": (a >> sel) & 3}))
+class SextVarSlice(Base):
+  """sext and plain use of a part select whose position is a signal"""
+  def construct(s):
+    s.ports()
+    s.o = OutPort(Bits8)
+    s.p = OutPort(Bits2)
+    s.k = Wire(Bits3)
+
+    @update
+    def up_svs1():
+      s.k @= zext(s.sel, 3)
+
+    @update
+    def up_svs2():
+      s.o @= sext(s.a[s.k:s.k + 2], 8)
+      s.p @= s.a[s.k:s.k + 2]
 
 
 def sequences():
